@@ -131,7 +131,7 @@ Section AES.
       replace (length ((p ++ firstn (pad_of p - 1) padr) ++ [n2b (N.of_nat (pad_of p - 1))]) - 1 - length (p ++ firstn (pad_of p - 1) padr))%nat with 0%nat
         by (rewrite !app_length, firstn_length; cbn; lia).
       cbn [nth_error]. rewrite b2n_n2b_small by lia. reflexivity. }
-    rewrite Last. cbn [bind]. unfold nat_of. rewrite Nat2N.id.
+    rewrite Last. cbn [bind]. rewrite Nat2N.id.
     match goal with |- context[if ?c then _ else _] => destruct c eqn:E3 end; [lia|].
     rewrite upto_ok by lia. f_equal. unfold padded. apply firstn_app_len. fold padded. rewrite Lp. lia.
   Qed.
